@@ -6,13 +6,13 @@ package ev
 import (
 	"bufio"
 	"bytes"
-	"os/exec"
 	"crypto/sha1"
 	"encoding/hex"
 	"encoding/json"
 	"flag"
 	"fmt"
 	"os"
+	"os/exec"
 	"path/filepath"
 	"runtime"
 	"sort"
@@ -693,7 +693,6 @@ func (r *Run) Done() {
 	}
 	r.Finish()
 }
-
 
 // CheckDigests reports a finding for every string extra that two workers
 // set to different values, and drops the digests from the evidence.
